@@ -1,5 +1,6 @@
 import HcipyVerif.Model.Proto
 import HcipyVerif.Model.Zernike
+import HcipyVerif.Model.ZernikeArr
 
 /-!
 Line-protocol front end of the C13 model.
@@ -18,6 +19,11 @@ C13 normsq n m            -> ok q                (n+1)·(2 if m≠0)
 C13 radial n m r          -> ok q                zernike_radial (repaired)
 C13 radialold n m r       -> ok q | nan          unrepaired recurrence (n-|m| even, |m| ≤ n)
 C13 memo D r c s old|new n:m:cut,…  -> ok [q…]   request history against one cache at one point
+C13 pts sep [R…] [c…] [s…]                       store a separated polar grid (axes R and (cos θ, sin θ)); `mode` then
+                                                 answers in the code's layout (`plainA`: index iθ·nr + ir)
+C13 amemo old|new D n:m:cut,…  -> ok step|step|… array-level cache model (`runA`) on the stored polar / separated grid;
+     step = [result…];+key=val;…;~key=val;…      `+` slot added by this request, `~` slot whose array changed;
+     key = rad.n.m | red.n.m | azim.m, val = s:q (a float) | r<ref>:[q…] (an ndarray, by heap reference)
 ```
 -/
 namespace HcipyVerif.Driver.C13
@@ -26,6 +32,7 @@ open HcipyVerif.Proto HcipyVerif.Zernike
 inductive Pts where
   | polar (p : List (Rat × Rat × Rat))
   | cart (p : List (Rat × Rat))
+  | sep (R : List Rat) (dirs : List (Rat × Rat))
 
 structure St where
   pts : Pts := .cart []
@@ -51,6 +58,31 @@ def parseReq? (s : String) : Option Req :=
   match s.splitOn ":" with
   | [n, m, c] => do pure ⟨← parseNat? n, ← parseInt? m, ← parseBool? c⟩
   | _ => none
+
+def showKey : Key → String
+  | .rad n m => s!"rad.{n}.{m}"
+  | .red n k => s!"red.{n}.{n - 2 * k}"
+  | .azim m => s!"azim.{m}"
+
+def showVal (h : Heap) : Val → String
+  | .scalar v => "s:" ++ showRat v
+  | .ref i => s!"r{i}:" ++ showRatList (h.getD i [])
+
+/-- what a slot denotes (float, or the array behind the reference) -/
+def denote (h : Heap) : Val → Option Rat × List Rat
+  | .scalar v => (some v, [])
+  | .ref i => (none, h.getD i [])
+
+/-- slots added (`+`) and slots whose content changed (`~`) between two states -/
+def showDelta (a b : AState) : List String :=
+  b.cache.reverse.filterMap fun (k, v) =>
+    match a.getC k with
+    | none => some ("+" ++ showKey k ++ "=" ++ showVal b.heap v)
+    | some v0 => if denote a.heap v0 == denote b.heap v then none else some ("~" ++ showKey k ++ "=" ++ showVal b.heap v)
+
+def showSteps : AState → List (Arr × AState) → List String
+  | _, [] => []
+  | st, (z, st') :: rest => ";".intercalate (showRatList z :: showDelta st st') :: showSteps st' rest
 
 def step (st : St) : List String → St × String
   | ["reset"] => ({}, "ok")
@@ -89,6 +121,25 @@ def step (st : St) : List String → St × String
       | some p => ({ st with pts := .polar p }, "ok")
       | none => (st, "bad-op")
     | _, _, _ => (st, "bad-op")
+  | ["pts", "sep", rs, cs, ss] =>
+    match parseRatList? rs, parseRatList? cs, parseRatList? ss with
+    | some rs, some cs, some ss =>
+      match zip2 cs ss with
+      | some d => ({ st with pts := .sep rs d }, "ok")
+      | none => (st, "bad-op")
+    | _, _, _ => (st, "bad-op")
+  | ["amemo", which, D, reqs] =>
+    match parseRat? D, (reqs.splitOn ",").mapM parseReq? with
+    | some D, some reqs =>
+      if D = 0 || reqs.any (fun q => !valid q.n q.m) then (st, "err value") else
+      let g? : Option AGrid := match st.pts with
+        | .polar p => some (.pts (p.map (·.1)) (p.map fun t => (t.2.1, t.2.2)))
+        | .sep R d => some (.sep R d)
+        | .cart _ => none
+      match g?, (if which == "new" then some false else if which == "old" then some true else none) with
+      | some g, some old => (st, "ok " ++ "|".intercalate (showSteps {} (runA old D g reqs {})))
+      | _, _ => (st, "bad-op")
+    | _, _ => (st, "bad-op")
   | ["pts", "cart", xs, ys] =>
     match parseRatList? xs, parseRatList? ys with
     | some xs, some ys =>
@@ -103,6 +154,7 @@ def step (st : St) : List String → St × String
       let out := match st.pts with
         | .polar p => p.map fun (r, c, s) => modeQCut n m D r c s cut
         | .cart p => p.map fun (x, y) => modeQXYCut n m D x y cut
+        | .sep R d => plainA D (.sep R d) ⟨n, m, cut⟩
       (st, "ok " ++ showRatList out)
     | _, _, _, _ => (st, "bad-op")
   | ["basis", ansi, start, num] =>
